@@ -317,6 +317,7 @@ func runStrategyScenario(c *fw.Case, prop string) {
 		fs, facts := sim.CheckStream(res, ref, false)
 		s.report(prop, fs, extra)
 		c.Count("data_messages", int64(facts.Data))
+		c.Count("final_block_heights_checked", int64(facts.FinalHeightsOK))
 		c.Count("nonempty_payloads_compared", int64(facts.NonEmpty))
 		c.Count("backfilled_messages", int64(facts.BelowHandoff))
 		c.Count("empty_backfilled_blocks_omitted", int64(facts.OmittedEmpty))
